@@ -31,14 +31,14 @@ TRUSTED_BASE = [
 SNAPK = {'ITV_SNAP_EVERY': '1000000', 'ITV_SNAP_KINDS': 'I,C'}
 
 
-BIGENV = {'ITV_SNAP_EVERY': '50', 'ITV_SNAP_KINDS': 'C'}
+BIGENV = {'ITV_SNAP_EVERY': '50', 'ITV_SNAP_KINDS': 'C', 'ITV_HIST_TIMEOUT': '60'}
 
 
 def big(kinds, tier, build='release'):
     """large-state histories (harness/src/big.rs): kinds among map, set, key"""
     # the template of history i of a batch is (seed + i) mod 6 (map, set) / mod 5 (key): consecutive
     # batches (consecutive seeds) and histories cycle through all of them
-    shards, n, scale = (6, 2, 1600) if tier == 'quick' else (8, 12, 0)
+    shards, n, scale = (6, 2, 1600) if tier == 'quick' else (12, 4, 0)
     return [(build, 'big' + k, n, scale, BIGENV) for k in kinds for _ in range(shards)]
 
 
@@ -206,8 +206,8 @@ for _pid, _kinds in BIG_FOR.items():
         PROPS[_pid]['batches'][_tier] = PROPS[_pid]['batches'][_tier] + big(_kinds, _tier)
 for _tier in ('quick', 'thorough'):
     PROPS['C10']['batches'][_tier] = PROPS['C10']['batches'][_tier] + big(['map', 'set', 'key'], _tier, build='debug')
-PROPS['C18']['batches']['quick'] = PROPS['C18']['batches']['quick'] + [('debug', 'biginject', 3, 600, None), ('debug', 'biginject', 3, 600, None)]
-PROPS['C18']['batches']['thorough'] = PROPS['C18']['batches']['thorough'] + [('debug', 'biginject', 21, 1200, None), ('debug', 'biginject', 21, 1200, None), ('release', 'biginject', 21, 1200, None), ('release', 'biginject', 21, 1200, None)]
+PROPS['C18']['batches']['quick'] = PROPS['C18']['batches']['quick'] + [('debug', 'biginject', 3, 600, {'ITV_HIST_TIMEOUT': '30'}), ('debug', 'biginject', 3, 600, {'ITV_HIST_TIMEOUT': '30'})]
+PROPS['C18']['batches']['thorough'] = PROPS['C18']['batches']['thorough'] + [('debug', 'biginject', 21, 1200, {'ITV_HIST_TIMEOUT': '40'}), ('debug', 'biginject', 21, 1200, {'ITV_HIST_TIMEOUT': '40'}), ('release', 'biginject', 21, 1200, {'ITV_HIST_TIMEOUT': '40'}), ('release', 'biginject', 21, 1200, {'ITV_HIST_TIMEOUT': '40'})]
 
 # direct checks on trees far deeper than the model runner replays (harness `itv deep n colls`): the
 # reference answers are immediate, each row is the property's own predicate on the implementation
@@ -237,14 +237,49 @@ for _pid, _colls in CYCLE_FOR.items():
     _d['thorough'] = _d['thorough'] + [['cycle', 5000, _colls], ['cycle', 70000, _colls], ['cycle', 1000000, _colls]]
 
 # long bucket lists and thousands of expired copies in the segment tree (harness/src/big.rs, gen_big_seg)
-SEGENV = {'ITV_SNAP_EVERY': '1000000', 'ITV_SNAP_KINDS': 'Q'}
+SEGENV = {'ITV_SNAP_EVERY': '1000000', 'ITV_SNAP_KINDS': 'Q', 'ITV_HIST_TIMEOUT': '60'}
 for _pid in ('C03', 'C16', 'C10'):
     PROPS[_pid]['batches']['quick'] = PROPS[_pid]['batches']['quick'] + [('debug', 'bigseg', 6, 0, SEGENV), ('release', 'bigseg', 6, 0, SEGENV)]
     PROPS[_pid]['batches']['thorough'] = PROPS[_pid]['batches']['thorough'] + [('debug', 'bigseg', 60, 0, SEGENV), ('release', 'bigseg', 60, 0, SEGENV)]
 
+THINENV = {'ITV_HIST_TIMEOUT': '30', 'ITV_SNAP_EVERY': '3'}
 # tall thin trees found by greedy search on the implementation (harness/src/big.rs, gen_thin)
 for _pid in ('C02', 'C04', 'C05', 'C08', 'C09', 'C11', 'C13'):
-    PROPS[_pid]['batches']['quick'] = PROPS[_pid]['batches']['quick'] + [('release', 'thin', 4, 0, None)]
-    PROPS[_pid]['batches']['thorough'] = PROPS[_pid]['batches']['thorough'] + [('release', 'thin', 40, 0, None), ('debug', 'thin', 20, 0, None)]
-PROPS['C10']['batches']['quick'] = PROPS['C10']['batches']['quick'] + [('debug', 'thin', 3, 0, None)]
-PROPS['C10']['batches']['thorough'] = PROPS['C10']['batches']['thorough'] + [('debug', 'thin', 30, 0, None)]
+    PROPS[_pid]['batches']['quick'] = PROPS[_pid]['batches']['quick'] + [('release', 'thin', 4, 0, THINENV)]
+    PROPS[_pid]['batches']['thorough'] = PROPS[_pid]['batches']['thorough'] + [('release', 'thin', 40, 0, THINENV), ('debug', 'thin', 20, 0, THINENV)]
+PROPS['C10']['batches']['quick'] = PROPS['C10']['batches']['quick'] + [('debug', 'thin', 3, 0, THINENV)]
+PROPS['C10']['batches']['thorough'] = PROPS['C10']['batches']['thorough'] + [('debug', 'thin', 30, 0, THINENV)]
+
+
+# random mid-size states with EVERY one-step continuation (every removal, every insertion gap; every
+# ordered pair of removals from the smaller states; for the expiring-key tree every query kind for
+# every key at three times, each on an independent copy), and the closure over all coloured SHAPES of
+# up to N nodes (harness/src/big.rs gen_fan_*, harness/src/exhaust.rs gen_shapex)
+FANENV = {'ITV_SNAP_EVERY': '1000000', 'ITV_HIST_TIMEOUT': '20'}
+
+
+def fan(kind, tier, build='release'):
+    """kind among map, set, key"""
+    if kind == 'key':
+        return [(build, 'fankey', 40 if tier == 'quick' else 400, 0, FANENV)]
+    n1, n2, reps = (60, 30, 2) if tier == 'quick' else (300, 150, 4)
+    return [(build, 'fan' + kind, n1, 0, FANENV) for _ in range(reps)] + [(build, 'fan' + kind, n2, 2, FANENV) for _ in range(reps)]
+
+
+def shapex(kind, tier, build='release'):
+    nmax, shards = (10, 1) if tier == 'quick' else (12, 6)
+    return [(build, kind + 'shape', shards, nmax, FANENV) for _ in range(shards)]
+
+
+FAN_FOR = {'C01': ['key'], 'C02': ['map', 'set', 'key'], 'C04': ['map'], 'C05': ['set'], 'C06': ['key'], 'C07': ['key'],
+           'C08': ['map', 'set'], 'C09': ['set'], 'C11': ['map', 'set', 'key'], 'C13': ['map', 'set', 'key'],
+           'C17': ['map', 'set'], 'C20': ['key']}
+for _pid, _kinds in FAN_FOR.items():
+    for _tier in ('quick', 'thorough'):
+        for _k in _kinds:
+            PROPS[_pid]['batches'][_tier] = PROPS[_pid]['batches'][_tier] + fan(_k, _tier)
+            if _k != 'key' and _pid not in ('C13', 'C17'):
+                PROPS[_pid]['batches'][_tier] = PROPS[_pid]['batches'][_tier] + shapex(_k, _tier)
+for _tier in ('quick', 'thorough'):
+    PROPS['C10']['batches'][_tier] = (PROPS['C10']['batches'][_tier] + fan('map', _tier, 'debug') + fan('set', _tier, 'debug')
+                                      + fan('key', _tier, 'debug'))
